@@ -276,7 +276,11 @@ class CallStack(deque):
 
     def pop(self):
         if self.is_tainted():
-            return self._pop_tainted()
+            if not hasattr(self[-1][OBJ], "param_spaces"):
+                return self._pop_tainted()
+            # An ItemSpace is kept by its parent: its node is kept as well
+            # (it could not be deleted otherwise); the callers stay tainted
+            self.taint = len(self) - 1
 
         node = deque.pop(self)
         self.idxstack.pop()
